@@ -22,13 +22,13 @@ OUTER = {0: "add", 1: "subtract", 2: "multiply"}
 REDUCE = {0: "add", 1: "multiply"}
 
 # combinations that do not compile on the unchanged tree (compile-probed): excluded = "not supported"
-#   simde_AVX512 x double x {hardshrink, hardswish, softshrink} : simde_k{not,xor}_mask8 missing in the installed simde
+#   simde_AVX512 x {hardshrink, hardswish, softshrink} : simde_k{not,xor}_mask{8,16} missing in the installed simde
 #   simde_AVX512 x double x matmul : simd_op_t::fmadd calls simde_mm512_fmadd_ps for double
 def compiles(ctx, form, op, dt):
-    if ctx == 6 and dt == 8:
+    if ctx == 6:
         if form == "unary" and op in (6, 7, 10):
             return False
-        if form == "matmul":
+        if form == "matmul" and dt == 8:
             return False
     return True
 
@@ -195,6 +195,14 @@ def bcast_label(ls, rs):
     return "lhs_%s_rhs_%s" % (lab[0], lab[1])
 
 
+def bcast_cls(ls, rs):
+    if prod(ls) == 1:
+        return "bcast2d_lhs_single_element"
+    if prod(rs) == 1:
+        return "bcast2d_rhs_single_element"
+    return "bcast2d_" + bcast_label(ls, rs)
+
+
 def gen_binary(ctx, tier, D):
     out = []
     quick = tier == "quick"
@@ -234,8 +242,7 @@ def gen_binary(ctx, tier, D):
                         if key in seen:
                             continue
                         seen.add(key)
-                        lab = bcast_label(ls, rs)
-                        cls = "same_nd" if ls == rs else "bcast2d_" + lab
+                        cls = "same_nd" if ls == rs else bcast_cls(ls, rs)
                         # all four ops near the lane boundaries, otherwise rotate
                         ops = list(BINARY) if (n <= L + 1 or n in (2 * L, 2 * L + 1, 4 * L + 1)) else [k % 4]
                         k += 1
@@ -263,7 +270,7 @@ def gen_binary(ctx, tier, D):
         for op in (0, 1, 2):
             for n in few_sizes(L):
                 add(op, [n], [n], 0, "same_1d", kind="ints")
-                add(op, [2, n], [2, 1], 0, "bcast2d_" + bcast_label([2, n], [2, 1]), kind="ints")
+                add(op, [2, n], [2, 1], 0, bcast_cls([2, n], [2, 1]), kind="ints")
     return out
 
 
@@ -312,7 +319,10 @@ def reduce_cls(shape, axis, variant):
             ax = "negative_last" if a == nd - 1 else "negative_notlast"
         else:
             ax = "last" if a == nd - 1 else "notlast"
-    return "%s_axis_%s_%s" % ("single_output" if osize == 1 else "multi_output", ax, ("plain", "dtype_given", "initial_given")[variant])
+    v = ("plain", "dtype_given", "initial_given")[variant]
+    if osize == 1:
+        return "single_output_" + v
+    return "multi_output_axis_%s_%s" % (ax, v)
 
 
 def gen_reduce(ctx, tier, D):
